@@ -384,24 +384,46 @@ func (e *Engine) discharge(o *Obligation, workdir string, budgetS int, idx int) 
 	if budgetS < quick {
 		quick = budgetS
 	}
+	// race helper: all back ends at once, first decisive answer wins
+	race := func(file string, budget int, unsatOnly bool) solveResult {
+		ctx, cancel := context.WithCancel(context.Background())
+		defer cancel()
+		ch := make(chan solveResult, len(solvers))
+		for _, sp := range solvers {
+			sp := sp
+			go func() { ch <- runSolver(ctx, sp, budget, file) }()
+		}
+		best := solveResult{status: "unknown"}
+		for i := 0; i < len(solvers); i++ {
+			rr := <-ch
+			o.Outputs[rr.solver] = firstLines(rr.out, 3)
+			if rr.status == "unsat" || (rr.status == "sat" && !unsatOnly) {
+				return rr
+			}
+			if rr.status == "timeout" && best.status != "unknown" || best.solver == "" {
+				best = rr
+			}
+			if rr.status == "unknown" {
+				best = rr
+			}
+		}
+		return best
+	}
 	// fast path: cone-of-influence filtered hypotheses; only "unsat" counts
 	if o.Kind != "cover" {
 		qf := e.buildQueryF(o, false, true)
 		if len(qf) < len(q) {
 			ffile := filepath.Join(workdir, fmt.Sprintf("q%05d.f.smt2", idx))
 			if err := os.WriteFile(ffile, []byte(qf), 0o644); err == nil {
-				for _, sp := range solvers[:2] {
-					rf := runSolver(context.Background(), sp, quick, ffile)
-					if rf.status == "unsat" {
-						o.TimeS = time.Since(start).Seconds()
-						o.Solver = rf.solver
-						o.Status = "proved"
-						o.Bytes = len(qf)
-						os.Remove(ffile)
-						return
-					}
-				}
+				rf := runSolver(context.Background(), solvers[0], quick, ffile)
 				os.Remove(ffile)
+				if rf.status == "unsat" {
+					o.TimeS = time.Since(start).Seconds()
+					o.Solver = rf.solver
+					o.Status = "proved"
+					o.Bytes = len(qf)
+					return
+				}
 			}
 		}
 	}
@@ -409,34 +431,7 @@ func (e *Engine) discharge(o *Obligation, workdir string, budgetS int, idx int) 
 		o.Status = "error"
 		return
 	}
-	r := runSolver(context.Background(), solvers[0], quick, file)
-	o.Outputs[r.solver] = firstLines(r.out, 3)
-	final := r
-	if r.status != "unsat" && r.status != "sat" {
-		// race
-		ctx, cancel := context.WithCancel(context.Background())
-		ch := make(chan solveResult, len(solvers))
-		for _, sp := range solvers {
-			sp := sp
-			go func() { ch <- runSolver(ctx, sp, budgetS, file) }()
-		}
-		got := 0
-		for got < len(solvers) {
-			rr := <-ch
-			got++
-			o.Outputs[rr.solver] = firstLines(rr.out, 3)
-			if rr.status == "unsat" || rr.status == "sat" {
-				final = rr
-				break
-			}
-			if final.status == "error" || (final.status != "unsat" && final.status != "sat") {
-				if rr.status == "unknown" || final.status == "" {
-					final = rr
-				}
-			}
-		}
-		cancel()
-	}
+	final := race(file, budgetS, false)
 	o.TimeS = time.Since(start).Seconds()
 	o.Solver = final.solver
 	expectSat := o.Kind == "cover"
